@@ -306,7 +306,39 @@ def azimuthal_clause(cl, rng, n, replay):
                 return
 
 
+def two_axes_clause(cl, rng, n, replay):
+    """the same search range on two frequency vectors that agree in length, first and last value but not in between (equally spaced / geometric / irregular), one after the
+    other in one process: each object's peak is found on its own samples"""
+    import hvsrpy
+    for j in range(n):
+        m = int(rng.integers(12, 60))
+        lo_f, hi_f = float(rng.choice([0.1, 0.2, 0.5])), float(rng.choice([20., 25., 50.]))
+        inner = np.sort(rng.uniform(lo_f, hi_f, m - 2))
+        axes = [np.linspace(lo_f, hi_f, m), np.geomspace(lo_f, hi_f, m), np.concatenate([[lo_f], inner, [hi_f]])]
+        order = rng.permutation(3)
+        r = (float(rng.uniform(lo_f * 1.5, 2.0)), float(rng.uniform(3.0, hi_f * 0.8)))
+        for which in order:
+            f = axes[int(which)]
+            if _razor(f, r):
+                continue
+            k = int(rng.integers(2, 5))
+            A = np.array([gen_curve(rng, m) for _ in range(k)])
+            h = hvsrpy.HvsrTraditional(f, A)
+            h.update_peaks_bounded(search_range_in_hz=r)
+            cl.case((j, int(which), m, r))
+            if not _check_traditional(cl, h, f, A, r, "hvsrpy.hvsr_curve.HvsrCurve._search_range_to_index_range", dict(history=[(None, None), r], axis=["equally spaced", "geometric", "irregular"][int(which)])):
+                return
+            c = hvsrpy.HvsrCurve(f, A[0])
+            c.update_peaks_bounded(search_range_in_hz=r)
+            if not _peq(c.peak_frequency, c.peak_amplitude, spec_peak(f, A[0], r)):
+                cl.fail("hvsrpy.hvsr_curve.HvsrCurve._search_range_to_index_range", "single curve: peak differs from the highest local maximum inside the range on this object's own frequency samples",
+                        signature="curve:two-axes", range=r, frequency=f, amplitude=A[0])
+                return
+
+
 CLAUSES = [
+    ("cross-check:the same range on frequency vectors of equal length and end points (equally spaced, geometric, irregular) in one process", "cross-check",
+     "12-59 samples, 2-4 windows", "hvsrpy.hvsr_curve.HvsrCurve._search_range_to_index_range", (20, 300), two_axes_clause),
     ("cross-check:HvsrCurve / static / diffuse-field peaks == spec over range-update histories", "cross-check",
      "curves of 3-40 samples (noisy, bumps, monotone, flat, plateaus, edge-above-peak), 1-4 range updates (None, on-sample, off-sample, out of grid)",
      "hvsrpy.hvsr_curve.HvsrCurve.update_peaks_bounded", (150, 4000), curve_clause),
